@@ -3681,15 +3681,12 @@ class AssignAlign(MaybeAlignPartitions):
                 # Protect against pushing the same projection twice
                 return
 
-            diff = {self.column} - set(columns)
-            if len(diff) == 1:
-                return type(parent)(self.frame, *parent.operands[1:])
-            else:
-                new_args = self.operands[1:]
-
+            # The alignment with value changes the partitioning of the frame,
+            # other expressions may rely on it (e.g. x[x.c] with x being self).
+            # We can't drop it, even if the assigned column is not selected
             columns = [col for col in self.frame.columns if col in cols]
             return type(parent)(
-                type(self)(self.frame[sorted(columns)], *new_args),
+                type(self)(self.frame[sorted(columns)], *self.operands[1:]),
                 *parent.operands[1:],
             )
 
